@@ -12,6 +12,29 @@ fn usage() -> ! {
 
 fn main() {
     let args: Vec<String> = std::env::args().skip(1).collect();
+    if args.first().map(String::as_str) == Some("gen-corpus") {
+        vlib::fuzzops::gen_corpus().expect("write corpus");
+        return;
+    }
+    if args.first().map(String::as_str) == Some("fuzz-oracle") && args.len() == 3 {
+        // vcheck fuzz-oracle <target> <file>: run one saved input through a target's oracle
+        core::install_panic_hook();
+        let data = std::fs::read(&args[2]).expect("read input");
+        let res = match args[1].as_str() {
+            "fz_stream" => vlib::fuzzops::stream_target(&data),
+            "fz_typed" => vlib::fuzzops::typed_target(&data),
+            "fz_cmd" => vlib::fuzzops::cmd_target(&data),
+            _ => usage(),
+        };
+        match res {
+            Ok(()) => println!("ORACLE-OK"),
+            Err(e) => {
+                println!("ORACLE-FAILURE: {e}");
+                std::process::exit(1);
+            }
+        }
+        return;
+    }
     if args.len() < 2 {
         usage();
     }
